@@ -282,3 +282,46 @@ func gvalOut(mn *mnode, v reflect.Value) (string, bool) {
 	g.gstruct(mn, v)
 	return g.sb.String()[1:], g.inactiveNonZero
 }
+
+// unmappedNonZero reports whether a Go field that is not mapped to any schema field (and is not
+// the Which field) is non-zero: Extract must not touch such fields.
+func unmappedNonZero(mn *mnode, v reflect.Value) bool {
+	mapped := map[string]bool{}
+	for _, f := range mn.fields {
+		if f.present {
+			mapped[fmt.Sprint(f.path)] = true
+		}
+	}
+	if mn.wk == 'w' {
+		mapped[fmt.Sprint(mn.whichPath)] = true
+	}
+	var walk func(v reflect.Value, path []int) bool
+	walk = func(v reflect.Value, path []int) bool {
+		t := v.Type()
+		for i := 0; i < t.NumField(); i++ {
+			f := t.Field(i)
+			p := append(append([]int{}, path...), i)
+			if f.Anonymous && isStructOrPtr(f.Type) && f.Tag.Get("capnp") == "" {
+				fv := v.Field(i)
+				if fv.Kind() == reflect.Ptr {
+					if fv.IsNil() {
+						continue
+					}
+					fv = fv.Elem()
+				}
+				if walk(fv, p) {
+					return true
+				}
+				continue
+			}
+			if f.PkgPath != "" || mapped[fmt.Sprint(p)] {
+				continue
+			}
+			if !v.Field(i).IsZero() {
+				return true
+			}
+		}
+		return false
+	}
+	return walk(v, nil)
+}
